@@ -121,6 +121,30 @@ theorem sswu_neg {S : Type} (sgn0 : F → S) (hflip : ∀ y : F, y ≠ 0 → sgn
     exact hflip u hu h4'.symm
   · exact e
 
+open PP.Spec in
+/-- the relation `IsSswu` is functional: on a curve without 2-torsion the RFC's
+    `map_to_curve_simple_swu(u)` is a single point -/
+theorem sswu_unique {S : Type} (sgn0 : F → S) (hflip : ∀ y : F, y ≠ 0 → sgn0 (-y) ≠ sgn0 y)
+    {A B Z u x y x' y' : F} (hroot : ∀ x : F, sswuG A B x ≠ 0)
+    (h : IsSswu sgn0 A B Z u x y) (h' : IsSswu sgn0 A B Z u x' y') :
+    x = x' ∧ y = y' := by
+  obtain ⟨h1, h2, h3, h4⟩ := h
+  obtain ⟨h1', h2', h3', h4'⟩ := h'
+  have hx : x = x' := by
+    by_cases hs : IsSquare (sswuG A B (sswuX1 A B Z u))
+    · rw [h1 hs, h1' hs]
+    · rw [h2 hs, h2' hs]
+  refine ⟨hx, ?_⟩
+  rw [← hx, ← h3] at h3'
+  rcases sq_eq_sq_iff_eq_or_eq_neg.mp h3' with e | e
+  · exact e.symm
+  · exfalso
+    have hy : y ≠ 0 := by
+      rintro rfl
+      exact hroot x (by rw [← h3]; ring)
+    rw [e] at h4'
+    exact hflip y hy (h4'.trans h4.symm)
+
 end generic
 
 /-! ## the RFC's `iso_map`, as a map from affine coordinates to the group of points -/
@@ -228,6 +252,23 @@ theorem isoSswuG1_neg (u : Fq) (hu : u ≠ 0) :
   rw [Jac.eq_scale_neg hz hz' hx hy, C16.iso11_homogeneous,
     (Jac.abs_scale hQ (pow_ne_zero 55 hl)).2, C16.iso11_neg, C01.neg_correct (isoSswuG1_onCurve u)]
 
+/-- C17 at G1, in terms of `Jac.OnCurve` / `Jac.abs` -/
+theorem g1_clearH (P : Jac Fq) (hP : Jac.OnCurve b₁ P) :
+    Jac.OnCurve b₁ (clearHG1 P) ∧ Jac.abs b₁ (clearHG1 P) = C17.hEffG1 • Jac.abs b₁ P :=
+  C17.clearH_G1 g1Model P hP
+
+/-- C17 subgroup clause at G1 (hypothesis `hexp`) -/
+theorem g1_clearH_killed (hexp : ∀ g : (W b₁).Point, (0xd201000000010001 * Gen.r) • g = 0)
+    (P : Jac Fq) (hP : Jac.OnCurve b₁ P) : Gen.r • Jac.abs b₁ (clearHG1 P) = 0 :=
+  C17.clearH_G1_in_subgroup_of g1Model hexp P hP
+
+theorem mapToCurveG1_eq (u : Fq) : mapToCurveG1 u = clearHG1 (iso11 (osswuG1 u)) := by
+  unfold mapToCurveG1; rfl
+
+theorem map2ToCurveG1_eq (u0 u1 : Fq) :
+    map2ToCurveG1 u0 u1 = clearHG1 ((iso11 (osswuG1 u0)).add (iso11 (osswuG1 u1))) := by
+  unfold map2ToCurveG1; rfl
+
 end G1
 
 /-! ## G2 -/
@@ -278,6 +319,25 @@ theorem isoSswuG2_neg (u : Fq2) (hu : u ≠ 0) {P P' : Jac Fq2} (hP : osswuG2 u 
     rw [C16.iso3_neg fq2FieldAgrees]; exact C01.neg_onCurve hon
   rw [Jac.eq_scale_neg hz hz' hx hy, C16.iso3_homogeneous fq2FieldAgrees,
     (Jac.abs_scale hQn (pow_ne_zero 15 hl)).2, C16.iso3_neg fq2FieldAgrees, C01.neg_correct hon]
+
+/-- C17 at G2, in terms of `Jac.OnCurve` / `Jac.abs` -/
+theorem g2_clearH (P : Jac Fq2) (hP : Jac.OnCurve b₂ P) :
+    Jac.OnCurve b₂ (clearHG2 P) ∧ Jac.abs b₂ (clearHG2 P) = C17.hEffG2 • Jac.abs b₂ P :=
+  C17.clearH_G2 g2Model P hP
+
+/-- C17 subgroup clause at G2 (hypothesis `hord`) -/
+theorem g2_clearH_killed (hord : ∀ g : (W b₂).Point, (Gen.G2_COFACTOR * Gen.r) • g = 0)
+    (P : Jac Fq2) (hP : Jac.OnCurve b₂ P) : Gen.r • Jac.abs b₂ (clearHG2 P) = 0 :=
+  C17.clearH_G2_in_subgroup g2Model hord P hP
+
+theorem mapToCurveG2_eq {u : Fq2} {P : Jac Fq2} (hP : osswuG2 u = some P) :
+    mapToCurveG2 u = some (clearHG2 (iso3 P)) := by
+  unfold mapToCurveG2; rw [hP]; rfl
+
+theorem map2ToCurveG2_eq {u0 u1 : Fq2} {P0 P1 : Jac Fq2} (hP0 : osswuG2 u0 = some P0)
+    (hP1 : osswuG2 u1 = some P1) :
+    map2ToCurveG2 u0 u1 = some (clearHG2 ((iso3 P0).add (iso3 P1))) := by
+  unfold map2ToCurveG2; rw [hP0, hP1]; rfl
 
 end G2
 
